@@ -40,8 +40,9 @@ type ProcessSet struct {
 
 	messageFlows map[string]*schema.MessageFlow
 
-	cmu     sync.RWMutex
-	catchCh map[string]chan struct{}
+	cmu          sync.RWMutex
+	catchCh      map[string]chan struct{}
+	pendingWakes map[string]int
 
 	subTracer tracing.ITracer
 
@@ -87,6 +88,7 @@ func NewProcessSet(executeProcesses, waitingProcesses []*schema.Process, definit
 		definitions:   definitions,
 		messageFlows:  messageFlows,
 		catchCh:       make(map[string]chan struct{}),
+		pendingWakes:  make(map[string]int),
 		mch:           make(chan imessage, len(executes)+1),
 		done:          make(chan struct{}, 1),
 	}
@@ -186,9 +188,19 @@ func (ps *ProcessSet) handleThrow(ctx context.Context, msg throwMessage) {
 			return
 		}
 	}
-	cancel, found := ps.triggerCatch(string(sourceRef.TargetRefField))
-	if found {
-		cancel()
+	ps.wakeCatch(string(sourceRef.TargetRefField), !found)
+}
+
+// wakeCatch wakes the listening catch event id. If it has not reported that it listens yet (its
+// watcher may simply lag behind) and remember is set, the wake-up is kept for registerCatch.
+func (ps *ProcessSet) wakeCatch(id string, remember bool) {
+	ps.cmu.Lock()
+	defer ps.cmu.Unlock()
+	if ch, ok := ps.catchCh[id]; ok {
+		close(ch)
+		delete(ps.catchCh, id)
+	} else if remember {
+		ps.pendingWakes[id]++
 	}
 }
 
@@ -263,25 +275,13 @@ func (ps *ProcessSet) registerCatch(node *schema.CatchEvent, ch chan struct{}) {
 	}
 	ps.cmu.Lock()
 	defer ps.cmu.Unlock()
-	ps.catchCh[*idPtr] = ch
-}
-
-func (ps *ProcessSet) triggerCatch(id string) (func(), bool) {
-	ps.cmu.RLock()
-	defer ps.cmu.RUnlock()
-
-	ch, ok := ps.catchCh[id]
-	if !ok {
-		return nil, false
-	}
-
-	cancel := func() {
-		ps.cmu.Lock()
+	if ps.pendingWakes[*idPtr] > 0 {
+		// a throw for this catch event arrived before it listened
+		ps.pendingWakes[*idPtr]--
 		close(ch)
-		delete(ps.catchCh, id)
-		ps.cmu.Unlock()
+		return
 	}
-	return cancel, true
+	ps.catchCh[*idPtr] = ch
 }
 
 func (ps *ProcessSet) resolveWaitingProcessAndEvent(idRef string) (schema.FlowNodeInterface, *schema.Process, bool) {
